@@ -28,6 +28,8 @@ Definition i64 (x : Z) : bool := (i64_min <=? x) && (x <=? i64_max).
 Definition u64 (x : Z) : bool := (0 <=? x) && (x <=? u64_max).
 Definition usz (um x : Z) : bool := (0 <=? x) && (x <=? um).
 Definition nz (x : Z) : bool := negb (x =? 0).
+(* usize::MAX of a 64-bit host (the correspondence harness) *)
+Definition um64 : Z := u64_max.
 
 (* ---- display scale (the domain of C08) ---------------------------------------------------- *)
 Definition ds_max : Z := 1024.
